@@ -3,6 +3,7 @@
 #include <memory>
 #include "common/runner.hpp"
 #include "common/graphs.hpp"
+#include "common/bigref.hpp"
 #include "common/bgl.hpp"
 #include "common/variants.hpp"
 #include <queue>
@@ -90,8 +91,45 @@ static void check_spanner(vr::Runner &R, const vg::EdgeList &el, const std::vect
     if (verbose) printf("spanner k=%ld retained=%d dropped=%d ok\n", k, (int) std::count(retained.begin(), retained.end(), 1), (int) std::count(dropped.begin(), dropped.end(), 1));
 }
 
+// graphs with more than 62 edges: dynamic bitsets and the Horton reference instead of 64-bit masks / all-cycles
+static void run_case_large(vr::Runner &R, const Cfg &cfg, const vg::EdgeList &el, const std::vector<double> &w, int dim, uint64_t unit, uint64_t sub, B &b, bool verbose) {
+    b.set_weights(w);
+    double opt = -1;
+    for (size_t ki = 0; ki < cfg.ks.size(); ++ki) {
+        long k = cfg.ks[ki] < 0 ? el.n + 1 : cfg.ks[ki];
+        if (k < 1) continue;
+        if (cfg.c15) { R.crumb(unit, sub, 100 + ki); try { check_spanner(R, el, w, b, k, verbose); } catch (std::exception &e) { R.violation({"BaseApproxSpannerAlgorithm::construct_spanner", "exception", vg::case_string(el, w, "component=spanner;k=" + std::to_string(k)), e.what()}); } R.crumb_done(); }
+        if (!cfg.c05 && !cfg.c06) continue;
+        for (int var : cfg.variants) {
+            R.crumb(unit, sub, ki * 10 + var);
+            vv::CycleList<W> cycles; W ret = W(); std::string exc;
+            try { ret = vv::run_approx<W>(var, b, (std::size_t) k, cycles); } catch (std::exception &e) { exc = e.what(); } catch (...) { exc = "unknown exception"; }
+            R.crumb_done(); R.count(C_EVAL);
+            std::string cs = cs_of(el, w, var, k); const char *site = vv::approx_name(var);
+            if (!exc.empty()) { R.violation({site, "exception", cs, exc}); continue; }
+            std::vector<std::vector<int>> ids;
+            for (auto &c : cycles) { std::vector<int> v; for (auto &e : c) { auto it = b.by_prop.find(e.get_property()); v.push_back(it == b.by_prop.end() ? -1 : it->second);
+#ifdef VH_TOUCH_RESULTS
+                    volatile double sink = boost::get(boost::edge_weight, b.g, e); (void) sink;
+#endif
+                } ids.push_back(v); }
+            auto chk = vbig::check_cycles(el, w, ids, dim);
+            if (verbose) printf("variant=%s k=%ld returned=%s emitted_total=%s count=%zu %s\n", site, k, vg::fmt_w(ret).c_str(), vg::fmt_w(chk.total).c_str(), ids.size(), chk.ok ? "valid" : chk.msg.c_str());
+            if (!chk.ok) { if (cfg.c05) R.violation({site, chk.cls, cs, chk.msg}); if (cfg.c06) R.violation({site, "no-basis-produced", cs, chk.msg}); continue; }
+            if (cfg.c05 && ret != chk.total) R.violation({site, "return-mismatch", cs, "returned " + vg::fmt_w(ret) + " but emitted cycles weigh " + vg::fmt_w(chk.total)});
+            if (cfg.c06) {
+                if (opt < 0) opt = vbig::horton_reference(el, w).total;
+                if (chk.total > (2 * k - 1) * opt) R.violation({site, "ratio-exceeded", cs, "basis weight " + vg::fmt_w(chk.total) + " > (2k-1) x optimum " + vg::fmt_w(opt)});
+                else if (chk.total < opt) R.violation({site, "below-optimum", cs, "basis weight below the optimum"});
+                else if (k == 1 && chk.total != opt) R.violation({site, "k1-not-minimum", cs, "k=1 weight " + vg::fmt_w(chk.total) + ", optimum " + vg::fmt_w(opt)});
+            }
+        }
+    }
+}
+
 static void run_case(vr::Runner &R, const Cfg &cfg, const vg::EdgeList &el, const std::vector<double> &w,
         const std::vector<uint64_t> &cyc, int dim, uint64_t unit, uint64_t sub, B &b, bool verbose = false) {
+    if (el.m() > 62) { run_case_large(R, cfg, el, w, dim, unit, sub, b, verbose); return; }
     b.set_weights(w);
     vg::RefResult<double> ref; bool have_ref = false;
     auto need_ref = [&]() { if (!have_ref) { ref = vg::reference_mcb<double>(cyc, w, dim); std::sort(ref.weights.begin(), ref.weights.end()); have_ref = true; } };
@@ -162,7 +200,7 @@ int main(int argc, char **argv) {
         if (pc.get("component") == "spanner") { cfg.c05 = cfg.c06 = false; cfg.c15 = true; }
         else { cfg.variants = {vv::variant_by_short(pc.get("variant", "approx_mcb_sva_signed"))}; cfg.c15 = false; }
         int dim = vg::cycle_space_dim(pc.g);
-        auto cyc = vg::all_simple_cycles(pc.g);
+        std::vector<uint64_t> cyc; if (pc.g.m() <= 62) cyc = vg::all_simple_cycles(pc.g);
         R.worker_id = 0;
         B b(pc.g, pc.w);
         run_case(R, cfg, pc.g, pc.w, cyc, dim, 0, 0, b, true);
@@ -194,7 +232,7 @@ int main(int argc, char **argv) {
     auto work = [&](uint64_t u, uint64_t start_sub) {
         vg::EdgeList el = unit_graph(u);
         int dim = vg::cycle_space_dim(el);
-        auto cyc = vg::all_simple_cycles(el);
+        std::vector<uint64_t> cyc; if (el.m() <= 62) cyc = vg::all_simple_cycles(el);
         uint64_t nw = vg::ipow(alpha.size(), el.m());
         std::vector<double> w; vg::weighting(alpha, el.m(), 0, w);
         B b(el, w);
